@@ -116,8 +116,18 @@ def response_length(cx, rcls, call, req_nz):
         for n in ast.walk(fn.node):
             if isinstance(n, ast.Assign) and isinstance(n.targets[0], ast.Attribute) and U(n.targets[0].value) == 'self':
                 v = n.value
-                while isinstance(v, ast.BoolOp) and isinstance(v.op, ast.Or):
-                    v = v.values[0]
+                # the argument itself, a copy of it, or the argument with an empty default: same length
+                while True:
+                    if isinstance(v, ast.BoolOp) and isinstance(v.op, ast.Or):
+                        v = v.values[0]
+                    elif isinstance(v, ast.Call) and isinstance(v.func, ast.Name) and v.func.id in ('list', 'tuple') and len(v.args) == 1 and not v.keywords:
+                        v = v.args[0]
+                    elif isinstance(v, ast.Subscript) and isinstance(v.slice, ast.Slice) and v.slice.lower is None and v.slice.upper is None and v.slice.step is None:
+                        v = v.value
+                    elif isinstance(v, ast.IfExp) and isinstance(v.body, ast.Name):
+                        v = v.body
+                    else:
+                        break
                 if isinstance(v, ast.Name) and v.id in amap:
                     attr_arg[n.targets[0].attr] = amap[v.id]
             if isinstance(n, ast.Call) and isinstance(n.func, ast.Attribute) and n.func.attr == '__init__' and isinstance(n.func.value, ast.Name):
